@@ -105,11 +105,14 @@ class ValidRange(Adapter):
                 # "unbounded" written as an infinite bound instead of a missing one
                 span = (float("-inf") if lo is None else span[0], float("inf") if hi is None else span[1])
         else:  # datetime64: values are whole seconds since the epoch
+            unit = case.get("unit") or "ns"
             inp = np.array([np.datetime64("NaT") if x is None else np.datetime64(int(x), "s") for x in xs],
-                           dtype="datetime64[ns]")
+                           dtype=f"datetime64[{unit}]")
             span = (None if lo is None else np.datetime64(int(lo), "s"),
                     None if hi is None else np.datetime64(int(hi), "s"))
         kw = {"inp": inp, "valid_span": span}
+        if case.get("typed"):
+            kw["dtype"] = inp.dtype          # the caller states the type (times: in the data's own unit)
         if case["si"] is not None:
             kw["start_inclusive"] = case["si"]
         if case["ei"] is not None:
@@ -145,6 +148,16 @@ def gen_valid(tier, rng):
                                   "si": si, "ei": ei})
                     if kind == "float" and (lo is None or hi is None) and len(xs) in (1, 3):
                         cases.append(dict(cases[-1], infinite=True))
+                    if kind == "datetime" and len(xs) in (1, 3, 4):
+                        cases.append(dict(cases[-1], typed=True, unit=rng.choice(["ns", "s", "ms", "us"])))
+    # times far from the epoch, in a coarse unit (nanoseconds only reach 1677 .. 2262): typed calls keep the unit
+    Y1500, Y2000, Y2300, Y9999 = -14831769600, 946684800, 10413792000, 253402214400
+    for lo, hi in [(Y2000, Y9999), (Y1500, Y2000), (Y2300, Y9999), (None, Y9999), (Y1500, None)]:
+        pts = sorted({b + d for b in (lo, hi) if b is not None for d in (-1, 0, 1)} | {Y1500 + 5, Y2000 + 5, Y2300 + 5})
+        for si, ei in incl:
+            for xs in [[v] for v in pts] + [pts + [None]] + [[rng.choice(pts + [None]) for _ in range(6)]]:
+                cases.append({"kind": "datetime", "xs": frs(xs), "lo": core.fr(lo), "hi": core.fr(hi), "si": si, "ei": ei,
+                              "typed": True, "unit": rng.choice(["s", "s", "ms", "us"])})
     return cases
 
 
@@ -281,6 +294,19 @@ def gen_spike(tier, rng):
         cases.append({"xs": frs(xs), "method": rng.choice(["average", "differential"]),
                       "st": rng.choice([core.fr(t) for t in thr] + [core.fr(F(1, 2))]),
                       "ft": rng.choice([core.fr(t) for t in thr] + [core.fr(F(3))])})
+    # hairline spikes: the spike measure exceeds (or misses) a threshold by 2^-30 / 2^-20 - a comparison is exact,
+    # with no tolerance band around the threshold (absolute or relative)
+    for _ in range(200 if tier == "quick" else 2000):
+        t = F(rng.choice([0, 1, 2, 25000, 3, F(1, 2)]))
+        e = F(1, 2 ** rng.choice([30, 30, 20])) * rng.choice([1, 1, -1, 0])
+        if t + e < 0:
+            e = -e
+        a = F(rng.choice([0, 5, -3, 10000]))
+        sgn = rng.choice([1, -1])
+        xs = [a, a + sgn * (t + e), a] + [a] * rng.randint(0, 2)
+        which = rng.choice(["st", "ft", "both"])
+        cases.append({"xs": frs(xs), "method": rng.choice(["average", "differential"]),
+                      "st": core.fr(t if which != "ft" else None), "ft": core.fr(t if which != "st" else None)})
     for m in ("median", "", "Average"):
         cases.append({"xs": frs([F(1), F(5), F(1)]), "method": m, "st": "1", "ft": "2"})
         cases.append({"xs": [], "method": m, "st": "1", "ft": "2"})
@@ -301,5 +327,7 @@ def big_shift_copies(cases, key, rng, count, keep=lambda c: True):
         d = copy.deepcopy(c)
         off = F(rng.choice(BIG_OFFSETS))
         d[key] = [None if x is None else core.fr(F(x) + off) for x in c[key]]
+        if any(x is not None and F(float(F(x))) != F(x) for x in d[key]):
+            continue                      # the shifted value would be rounded (a hairline 2^-30 beside 2^33)
         out.append(d)
     return out
